@@ -167,6 +167,11 @@ pub const POOL: usize = MAXR * RSZ;
 /// A symbolic layout of `n` sorted, disjoint regions (1 <= size <= RSZ, 64-bit bases, ends below 2^64 - 1 as
 /// `GuestRegionMmap::new` enforces) over `pool`; region i's bytes are pool[i*RSZ .. i*RSZ + size_i].
 pub fn any_layout(pool: &mut [u8; POOL], n: usize) -> MockMem {
+    any_layout_max(pool, n, RSZ as u64)
+}
+
+/// same with sizes up to `max` (only for harnesses that never touch region bytes)
+pub fn any_layout_max(pool: &mut [u8; POOL], n: usize, max: u64) -> MockMem {
     let p = pool.as_mut_ptr();
     let mut regions = [
         MockRegion { start: 0, len: 1, data: p, rec: Recorder::new() },
@@ -179,7 +184,7 @@ pub fn any_layout(pool: &mut [u8; POOL], n: usize) -> MockMem {
         if i < n {
             let start: u64 = kani::any();
             let len: u64 = kani::any();
-            kani::assume(len >= 1 && len <= RSZ as u64);
+            kani::assume(len >= 1 && len <= max);
             kani::assume(start as u128 >= prev_end);
             kani::assume(start as u128 + len as u128 <= u64::MAX as u128); // base + size must not overflow
             regions[i].start = start;
